@@ -169,6 +169,7 @@ type Result struct {
 	Samples        []any          `json:"samples"`
 	Dist           map[string]int `json:"distribution"`
 	OutOfDomain    int            `json:"out_of_model_domain"`
+	ASCIIModel     bool           `json:"-"` // the check's model derives names by ASCII case conversion
 	DriverRequests int            `json:"driver_requests"`
 	TracesVsImpl   int            `json:"traces_validated_against_impl,omitempty"`
 	Findings       []Finding      `json:"findings"`
@@ -213,6 +214,13 @@ func (r *Result) Add(f Finding) {
 			return // one representative per listed finding
 		}
 	}
+	if f.Kind == "disagreement" && r.ASCIIModel && caseTypeNonASCII(f.Case) {
+		// the Lean case-conversion model is over ASCII (Model/CaseConv.lean): a type with a non-ASCII field name is
+		// judged by the property's documentation oracle alone
+		r.OutOfDomain++
+		r.Dist["non-ASCII field name: outside the ASCII case-conversion model, oracle only"]++
+		return
+	}
 	if len(r.Findings) < 200 {
 		r.Findings = append(r.Findings, f)
 		return
@@ -222,6 +230,20 @@ func (r *Result) Add(f Finding) {
 	if f.Kind == "violation" && len(r.Findings) < 230 {
 		r.Findings = append(r.Findings, f)
 	}
+}
+
+func caseTypeNonASCII(cs any) bool {
+	m, ok := cs.(map[string]any)
+	if !ok {
+		return false
+	}
+	t, _ := m["type"].(string)
+	for i := 0; i < len(t); i++ {
+		if t[i] >= 0x80 {
+			return true
+		}
+	}
+	return false
 }
 
 func (r *Result) Bad() int {
